@@ -1,11 +1,13 @@
 TITLE = "Re-sampling, cutting, splitting or extending an envelope keeps its curve"
 IMPORTS = ["From Coquelicot Require Import Coquelicot.", "From Coq Require Import ZArith List Bool Reals.",
-           "From MV Require Import Base.Res Model.EventTree Model.TreeOps Model.Num Model.Envelope Proofs.RNum Proofs.Resample Proofs.ResampleCut Proofs.ResampleSplit.",
+           "From MV Require Import Base.Res Model.EventTree Model.TreeOps Model.Num Model.Envelope Proofs.RNum Proofs.Resample Proofs.ResampleCut Proofs.ResampleSplit Proofs.ResampleHistory.",
            "Import ListNotations."]
 ENTRIES = [
  ("C11_sample_keeps_curve", "sample_curve", "adding a control point at any time leaves the value at every time unchanged and creates a point exactly there"),
  ("C11_sample_total", "sample_total", ""),
  ("C11_extend_keeps_curve", "extend_curve", "extending an envelope to a later time: the same"),
+ ("C11_history_keeps_curve", "history_keeps_curve", "any history of sample_at / extend_until edits on one envelope (the result of an edit is an envelope like any other): the curve is unchanged at every time"),
+ ("C11_history_last_point", "history_last_point", "and the point asked for last is a control point at the end"),
  ("C11_cut_out_reproduces", "cut_out_curve", "cutting out [a, b]: value at offset x of the piece equals the original value at a + x, including the new end and the final control point; at offset 0 under `nojump` (finding F6 otherwise)"),
  ("C11_cut_out_total", "cut_out_total", ""),
  ("C11_cut_out_on_jump_refuted", "cut_out_jump_refuted", "the refutation at offset 0 when the piece starts exactly on a jump (known finding F6)"),
@@ -19,7 +21,8 @@ ENTRIES = [
  ("C11_segment_split_left", "segR_split_left", ""),
  ("C11_segment_split_right", "segR_split_right", ""),
 ]
-EXTRA = """Print nojump. Print mid_ok. Print last_ok. Print cuts_of.
+EXTRA = """Print eop. Print run_eop. Print run_eops. Print eop_ok. Print eop_time.
+Print nojump. Print mid_ok. Print last_ok. Print cuts_of.
 (* splitting leaves the original untouched: the model is a pure function; checked on the implementation by the
    correspondence (receiver snapshot before/after). *)
 """
